@@ -61,6 +61,54 @@ H("tail_collapse_n8", "tail.rs", "TAIL", ["C01", "C05", "C09", "C10", "C11"], "t
   "every stack of depth 0..8 with every MARK pattern, every protocol 0..5", stubs=ENV_STUBS + TAIL_CONTRACTS,
   funcs=["Generator::cleanup_for_stop"], cost=6)
 
+# ---------------------------------------------------------------------------------------------------
+# HEAD — generate_from_arbitrary/generate -> generate_internal against contracts of its multi-step callees
+HEAD_CONTRACTS = ["contracts for Generator::{get_valid_opcodes (non-empty list), emit_and_process (appends k arbitrary bytes after the "
+                  "current end, k fixed per instance; counts the call), cleanup_for_stop (appends k arbitrary bytes)} — each no stronger "
+                  "than what GUARD/EMIT/POST/TAIL establish on the real callee"]
+HEAD_FUNCS = ["Generator::generate_from_arbitrary", "Generator::generate_internal", "Generator::emit_proto",
+              "Generator::weighted_choice", "Generator::emit_opcode(Stop)", "Generator::reset", "State::reset",
+              "GenerationSource::{gen_bool,choose_index}"]
+LAY = ["C05", "C06", "C04", "C09", "C11"]
+for n, tier, b, cost in [
+    ("head_layout_t0_k00", "thorough", "T=0, contracts append 0/0 bytes", 4),
+    ("head_layout_t0_k01", "quick", "T=0, tail contract appends 1 arbitrary byte", 4),
+    ("head_layout_t1_k10", "quick", "T=1, body contract appends 1 arbitrary byte", 5),
+    ("head_layout_t1_k21", "thorough", "T=1, body appends 2 bytes, tail 1", 6),
+    ("head_layout_t2_k12", "thorough", "T=2, body appends 1 byte per call, tail 2", 8),
+]:
+    H(n, "head.rs", "HEAD(layout)", LAY, tier, "every protocol 0..5; fuzzer bytes: every string of length 0..2; " + b,
+      stubs=ENV_STUBS + HEAD_CONTRACTS, funcs=HEAD_FUNCS, cost=cost)
+H("head_layout_p5_t2_k12_len8", "head.rs", "HEAD(layout)", LAY, "thorough",
+  "protocol 5; fuzzer bytes: every string of length 0..8; T=2, body appends 1 byte per call, tail 2",
+  stubs=ENV_STUBS + HEAD_CONTRACTS, funcs=HEAD_FUNCS, cost=6)
+H("head_layout_rng_t1_k11", "head.rs", "HEAD(layout)", LAY, "thorough",
+  "generate() with every u64 seed value (seed_from_u64 real, ChaCha core = arbitrary word stream); every protocol; T=1, appends 1/1",
+  stubs=ENV_STUBS + HEAD_CONTRACTS + RNG_STUBS + ["seed_fresh: ChaCha8Rng::from_seed returns the word-stream generator"],
+  funcs=HEAD_FUNCS + ["Generator::generate"], cost=5)
+CNT = ["C11", "C09"]
+H("head_count_t2", "head.rs", "HEAD(count)", CNT, "quick",
+  "min,max symbolic in 0..2 (incl. min>max, equal, zero); every protocol; fuzzer bytes 0..2; contracts append nothing",
+  stubs=ENV_STUBS + HEAD_CONTRACTS, funcs=HEAD_FUNCS, cost=3)
+H("head_count_t4_len4", "head.rs", "HEAD(count)", CNT, "thorough",
+  "min,max symbolic in 0..4; every protocol; fuzzer bytes 0..4", stubs=ENV_STUBS + HEAD_CONTRACTS, funcs=HEAD_FUNCS, cost=3)
+H("head_count_max_any", "head.rs", "HEAD(count)", CNT, "quick",
+  "min <= 3, max any usize (<= 3 or exhausted input so that T <= 3); every protocol", stubs=ENV_STUBS + HEAD_CONTRACTS,
+  funcs=HEAD_FUNCS, cost=3)
+H("head_count_rng_t2", "head.rs", "HEAD(count)", CNT, "thorough",
+  "generate() with every u64 seed; min,max symbolic in 0..2; every protocol",
+  stubs=ENV_STUBS + HEAD_CONTRACTS + RNG_STUBS + ["seed_fresh: ChaCha8Rng::from_seed returns the word-stream generator"],
+  funcs=HEAD_FUNCS + ["Generator::generate"], cost=3)
+for n, tier, b, cost in [
+    ("head_reuse_t1_noreset", "quick", "second call without reset(); T=1", 4),
+    ("head_reuse_t1_reset", "thorough", "second call after reset(); T=1", 6),
+    ("head_reuse_t0_noreset", "quick", "second call without reset(); T=0", 3),
+]:
+    H(n, "head.rs", "HEAD(reuse)", ["C08", "C09"], tier,
+      "every protocol; fuzzer bytes 0..2; used generator = arbitrary junk output byte + one stack item + arbitrary PROTO flag "
+      "(native replay: a real earlier call on 4 arbitrary bytes); deterministic contracts; " + b,
+      stubs=ENV_STUBS + HEAD_CONTRACTS, funcs=HEAD_FUNCS, cost=cost)
+
 
 def units_for(prop, tier):
     out = []
